@@ -23,7 +23,9 @@ def mkParams (isMap : Bool) (small hm seed : Nat) : Params String :=
     bkt := fun gen k =>
       let h := env.hash k (env.seeds (gen + 1))
       if isMap then h.toNat else (Gen.h1 h).toNat,
-    minLen := small, growOnly := false }
+    minLen := small, growOnly := false,
+    -- newMapTable / newMapOfTable: counterLen = tableLen >> 10 clamped to [minMapCounterLen, maxMapCounterLen]
+    stripes := fun len => max Gen.minMapCounterLen (min Gen.maxMapCounterLen (len >>> 10)) }
 
 def parsePOp (t : List String) : Option (POp String Val) :=
   match t with
@@ -42,20 +44,11 @@ def parsePOp (t : List String) : Option (POp String Val) :=
   | ["clear"] => some .clear
   | _ => none
 
-/-- did the scan take the "chain full" branch (which sums the counter)?  The acceptance passes the inferred
-layout choice through `leftEmpty` of the *resulting* locals being untouched, so it is recomputed here: the
-branch was taken iff the choice said "no free slot". -/
-def scanSummed (_l _l' : PL) : Bool := false
-
 /-- tokens a model step makes visible -/
 def tokensOf (p : Params String) (g : PG) (l l' : PL) : List String :=
   match l.pc with
-  -- the striped counter is summed only where the code needs it: chain full (grow check), Size, shrink checks
-  | .dcScan => if l'.pc == .dcUnlockGrow || (l'.pc == .dcFn && l'.old.isNone && l.pc == .dcScan && scanSummed l l') then ["SumSize"] else []
-  | .szSum => ["SumSize"]
-  | .rzFast =>
-    if l.hint == .shrink && !p.growOnly && p.minLen != (g.tables l.known).len then ["SumSize"] else []
-  | .rzDecide => if l.hint == .shrink && (g.tables l.rtbl).len > p.minLen then ["SumSize"] else []
+  -- the striped counter is summed one atomic load per stripe
+  | .szSum | .dcSum | .rzFastSum | .rzDecideSum => ["LdCtr"]
   | .ldTable | .szTable | .dcFast | .dcLoadTable | .dcChkTable | .rzLoadTable | .clTable | .rgTable => ["LdTable"]
   | .dcLock => ["Lock"]
   | .rzCopyLock => if l'.pc == .rzCopyDo then ["Lock"] else []
@@ -92,14 +85,14 @@ def inferChoice (l : PL) (t : Nat) (future : List Ev) : Proto.Choice String Val 
     -- chain full and over the threshold: the thread unlocks and goes to resize (CAS on the flag)
     -- the counter is summed exactly when the chain had no free slot
     let full := match la with
-      | "SumSize" :: _ => true
+      | "LdCtr" :: _ => true
       | _ => false
     { hasFree := !full }
   | .dcCommit =>
     -- after a delete that left the chain/bucket empty the code calls resize(shrink): visible as a counter sum
     -- (fast-path test) or directly as the CAS on the flag; if neither shows, the attempt (if any) was a no-op
     let shrink := match la.filter (· != "SlotStore") with
-      | "Unlock" :: a :: c :: _ => a.startsWith "AddSize" && (c.startsWith "Cas" || c == "SumSize")
+      | "Unlock" :: a :: c :: _ => a.startsWith "AddSize" && (c.startsWith "Cas" || c == "LdCtr")
       | _ => false
     { leftEmpty := shrink }
   | _ => {}
@@ -134,7 +127,7 @@ def atHindsightRead (l : PL) : Bool := l.pc == .ldRead
 /-- what the real lookup of thread `t` is going to see, read off its next event: `some (some v)` = the value
 printed as `v`, `some none` = absent; `none` = unconstrained (Size, whose striped sum may be torn) -/
 def expectedRead (l : PL) (t : Nat) (future : List Ev) : Option (Option String) :=
-  if l.pc == .szSum then none
+  if false then none
   else
     match future.find? (·.tid == t) with
     | some e =>
@@ -214,7 +207,7 @@ def advance (p : Params String) (a : Acc) (t : Nat) (future : List Ev) (stopAtRe
       match Proto.step p a.s t c with
       | none => .error s!"model thread is blocked at {repr l.pc} but the real thread moved"
       | some s' =>
-        let toksOut := tokensOf p a.s.g l (s'.l t) ++ (if l.pc == .dcScan && !c.hasFree && (s'.l t).pc == .dcFn then ["SumSize"] else [])
+        let toksOut := tokensOf p a.s.g l (s'.l t)
         let a' := { a with s := s' }
         if toksOut.isEmpty then advance p a' t future stopAtRet fuel else .ok (a', toksOut)
 
@@ -245,7 +238,7 @@ def acceptLoop (p : Params String) : Acc → List Ev → Nat → Except String U
             let opline := ((a'.curOp.find? (·.1 == t)).map (·.2)).getD ""
             let want := retString opline (a'.s.l t).result
             let got := stripFn (e.tok.drop 4).toString
-            if want != got && !(opline.startsWith "size") then .error s!"event {idx}: T{t} {opline} returned {got}, the model returns {want}"
+            if want != got then .error s!"event {idx}: T{t} {opline} returned {got}, the model returns {want}"
             else
               match Proto.step p a'.s t {} with
               | none => .error s!"event {idx}: model cannot return"
@@ -269,7 +262,7 @@ def acceptLoop (p : Params String) : Acc → List Ev → Nat → Except String U
               match Proto.step p a.s t c with
               | none => .error s!"model thread blocked at {repr l.pc}"
               | some s' =>
-                let extra := tokensOf p a.s.g l (s'.l t) ++ (if l.pc == .dcScan && !c.hasFree && (s'.l t).pc == .dcFn then ["SumSize"] else [])
+                let extra := tokensOf p a.s.g l (s'.l t)
                 if extra.isEmpty then toCommit { a with s := s' } fuel
                 else .error s!"the real thread stores into a slot, the model does {extra} first (at {repr l.pc})"
         match toCommit a 10 with
